@@ -7,6 +7,7 @@ import (
 	"fmt"
 	"io"
 	"sync"
+	"sync/atomic"
 	"testing"
 
 	"google.golang.org/grpc"
@@ -44,6 +45,10 @@ type c17Case struct {
 	SwitchInner int `json:",omitempty"`
 	// ViaOld: every other layer is made with grpchan.InterceptChannel, the older name of InterceptClientConn
 	ViaOld bool `json:",omitempty"`
+	// Follow: a second, identical call through the same wrapper, made with the context that the innermost
+	// interceptor of the first call was handed (a follow-up or auxiliary RPC issued by code that runs inside the
+	// first call, or with a stream's context): it is a call like any other and every layer sees it once
+	Follow bool `json:",omitempty"`
 }
 
 type c17SwitchConn struct {
@@ -253,12 +258,14 @@ func propC17Chain(c c17Case) *Outcome {
 		realCC, _ = car.Conn.(*grpc.ClientConn)
 	}
 	var sink metadata.MD
+	var seenCtx atomic.Pointer[context.Context] // the context most recently handed to an interceptor
 	mkUnary := func(id, beh string) grpc.UnaryClientInterceptor {
 		if beh == "" {
 			return nil
 		}
 		return func(ctx context.Context, method string, req, reply interface{}, cc *grpc.ClientConn, invoker grpc.UnaryInvoker, opts ...grpc.CallOption) error {
 			rec.add("u:%s:%s:%d:cc=%s", id, method, len(opts), ccLabel(cc, realCC))
+			seenCtx.Store(&ctx)
 			switch beh {
 			case "sc-err":
 				return status.Error(codes.FailedPrecondition, "stopped by "+id)
@@ -287,6 +294,7 @@ func propC17Chain(c c17Case) *Outcome {
 		}
 		return func(ctx context.Context, desc *grpc.StreamDesc, cc *grpc.ClientConn, method string, streamer grpc.Streamer, opts ...grpc.CallOption) (grpc.ClientStream, error) {
 			rec.add("s:%s:%s:%d:cc=%s", id, method, len(opts), ccLabel(cc, realCC))
+			seenCtx.Store(&ctx)
 			switch beh {
 			case "sc-err":
 				return nil, status.Error(codes.FailedPrecondition, "stopped by "+id)
@@ -396,6 +404,12 @@ func propC17Chain(c c17Case) *Outcome {
 		return walk(i-1, method, nopts, cnt)
 	}
 	res := walk(len(c.Layers)-1, method, c.NOpts, 5)
+	calls := 1
+	if c.Follow {
+		o.class("follow-up-call-with-inner-context")
+		calls = 2
+		walk(len(c.Layers)-1, method, c.NOpts, 5)
+	}
 	method = finalMethod
 	reachesBase := baseHits > 0
 	wantBare, wantCode, wantCount := res.bare, res.code, res.count
@@ -409,27 +423,49 @@ func propC17Chain(c c17Case) *Outcome {
 	var out pb.Message
 	var gotStream grpc.ClientStream
 	stall := guard("call", func() {
-		ctx, cancel := context.WithCancel(context.Background())
+		ctx0, cancel := context.WithCancel(context.Background())
 		defer cancel()
 		if c.DoneCtx && c.Base == "fake" {
 			cancel()
 		}
-		if c.Stream {
-			gotStream, err = ch.NewStream(ctx, streamDescOf(kBidi), mBidi, opts...)
-			if err == nil && c.Base != "fake" {
-				gotStream.CloseSend()
-				for i := 0; i < 3; i++ {
-					if err = gotStream.RecvMsg(new(pb.Message)); err != nil {
-						break
-					}
+		for call := 0; call < calls; call++ {
+			ctx := ctx0
+			if call > 0 {
+				if p := seenCtx.Load(); p != nil {
+					ctx = *p
 				}
-				if fmt.Sprint(err) == "EOF" {
-					err = nil
+				if err != nil || wantCode != codes.OK || wantBare {
+					// the first call failed: the follow-up is made all the same, its own result is not looked at
+					var out2 pb.Message
+					if c.Stream {
+						if cs, e := ch.NewStream(ctx, streamDescOf(kBidi), mBidi, opts...); e == nil && c.Base != "fake" {
+							cs.CloseSend()
+							for cs.RecvMsg(new(pb.Message)) == nil {
+							}
+						}
+					} else {
+						ch.Invoke(ctx, mUnary, &pb.Message{Count: 5}, &out2, opts...)
+					}
+					continue
 				}
 			}
-			return
+			if c.Stream {
+				gotStream, err = ch.NewStream(ctx, streamDescOf(kBidi), mBidi, opts...)
+				if err == nil && c.Base != "fake" {
+					gotStream.CloseSend()
+					for i := 0; i < 3; i++ {
+						if err = gotStream.RecvMsg(new(pb.Message)); err != nil {
+							break
+						}
+					}
+					if fmt.Sprint(err) == "EOF" {
+						err = nil
+					}
+				}
+				continue
+			}
+			err = ch.Invoke(ctx, mUnary, &pb.Message{Count: 5}, &out, opts...)
 		}
-		err = ch.Invoke(ctx, mUnary, &pb.Message{Count: 5}, &out, opts...)
 	})
 	if stall != "" {
 		return o.failf("stall: %s", stall)
@@ -513,6 +549,7 @@ func genC17(t *rapid.T) c17Case {
 	c.Sibling = rapid.IntRange(0, 2).Draw(t, "sibling") == 0
 	c.ViaOld = rapid.Bool().Draw(t, "viaold")
 	c.DoneCtx = c.Base == "fake" && rapid.IntRange(0, 3).Draw(t, "donectx") == 0
+	c.Follow = rapid.IntRange(0, 3).Draw(t, "follow") == 0
 	ub := []string{"", "pass", "pass", "pass", "sc-err", "sc-ctxerr", "sc-ok", "add-opt", "drop-opts", "rw-method", "twice", "rw-req"}
 	sb := []string{"", "pass", "pass", "pass", "sc-err", "sc-ctxerr", "add-opt", "drop-opts", "rw-method"}
 	for i := 0; i < n; i++ {
@@ -523,7 +560,7 @@ func genC17(t *rapid.T) c17Case {
 
 func init() { registerReplay("C17", propC17) }
 
-const c17Rule = "rapid-generated: base channel (recording fake, in-process, httpgrpc, real *grpc.ClientConn over bufconn) x 0..4 InterceptClientConn layers, each with nil or non-nil unary and stream interceptors x behaviours (pass, short-circuit error incl. a bare context error, short-circuit success, append / drop call options, rewrite the method, use the invoker twice) x 0..2 caller options x unary/stream call x caller context live or already cancelled (fake base); " +
+const c17Rule = "rapid-generated: base channel (recording fake, in-process, httpgrpc, real *grpc.ClientConn over bufconn) x 0..4 InterceptClientConn layers, each with nil or non-nil unary and stream interceptors x behaviours (pass, short-circuit error incl. a bare context error, short-circuit success, append / drop call options, rewrite the method, use the invoker twice) x 0..2 caller options x unary/stream call x caller context live or already cancelled (fake base) x optionally a second identical call made with the context the innermost interceptor of the first was handed; " +
 	"oracle = model log (recursive interpreter): outermost wrapper first, each applicable interceptor once per use of the invoker above it, with the method and option count as transformed so far and cc = the underlying *grpc.ClientConn iff the base is one (at every depth, unary and stream alike); the base sees method/message/options as transformed; nil,nil returns the same channel; Unwrap returns the wrapped one; " +
 	"also generated since the seeded rounds: interceptors handing on a request of their own (the base and the handler see that one), chains up to 8 deep, a sibling wrapper created over the same inner channel after the chain was built, a user-defined WrappedClientConn below the layers whose target changes between calls (the interceptors get the conn underlying each call); " +
 	"non-trivial = depth >= 2; distinct by case hash"
